@@ -65,8 +65,8 @@ func loadKnown(path string) ([]KnownFinding, error) {
 func selectContracts(g *Gen, prop string) []*Contract {
 	var sel []*Contract
 	for _, c := range g.CS.Order {
-		if c.PkgPath == "" || (c.Trusted && g.FindFunc(c) == nil) {
-			continue // external
+		if c.PkgPath == "" || c.Trusted || strings.HasPrefix(c.Func, "type:") {
+			continue // external or assumed (trusted) contracts are never verified; they are listed as assumptions
 		}
 		if prop == "C17" || prop == "ALL" {
 			sel = append(sel, c)
